@@ -114,9 +114,9 @@ def run_histories(ctx, n, check=None):
             cs = (g, (hh - 1, half), 0, gen.rand_held(r))
             area0 = (-(hh - 1), 0, -half, half)
         s = wire.mkstate(cs)
-        for _step in range(r.randint(2, 6)):
+        for _step in range(r.randint(3, 8)):
             k = r.random()
-            if k < 0.6:
+            if k < 0.55:
                 name = r.choice(ONAMES)
                 area = area0 if r.random() < 0.8 else rand_area(r)
                 now = wire.cstate(s)
@@ -131,8 +131,10 @@ def run_histories(ctx, n, check=None):
                 reqs.append(obs_request(name, area, now, tape))
             elif k < 0.88:
                 fn = r.choice(['move_agent', 'move_agent', 'turn_agent', 'turn_agent', 'actuate_door', 'pickndrop', 'actuate_box'])
+                # mostly an action the function reacts to (a move for move_agent, a turn for turn_agent ...): the pose / the world really changes
+                fitting = {'move_agent': impl.ACTS[0:4], 'turn_agent': impl.ACTS[4:6], 'actuate_door': impl.ACTS[6:7], 'actuate_box': impl.ACTS[6:7], 'pickndrop': impl.ACTS[7:8]}[fn]
                 try:
-                    tf.transition_function_registry[fn](s, r.choice(impl.ACTS))      # in place
+                    tf.transition_function_registry[fn](s, r.choice(fitting) if r.random() < 0.85 else r.choice(impl.ACTS))      # in place
                 except Exception:  # noqa: BLE001  (not this property's business)
                     pass
                 ctx.count('history event', 'in-place ' + fn)
